@@ -202,7 +202,11 @@ def snap_cases(d):
     ops = []
     for _ in range(d.randint(4, 14)):
         r = d.randint(0, 99)
-        if r < 38:
+        if r < 12:
+            # a call whose inline constraint bounds the size of the random-size list from above (0) or below (1): the
+            # elements a larger solve left behind take no part in a later, smaller one
+            ops.append(["randw", d.randint(0, 1), d.randint(0, 1)])
+        elif r < 38:
             ops.append(["rand", d.randint(0, 1)])
         elif r < 45:
             ops.append(["fail", d.randint(0, 1)])       # a call that raises SolveFailure (contradictory inline constraint)
@@ -241,8 +245,10 @@ class T(object):
         self.b = vsc.rand_bit_t(8)
         self.c = vsc.rand_bit_t(4)
         self.l = vsc.rand_list_t(vsc.bit_t(4), sz=3)
+        self.r = vsc.randsz_list_t(vsc.bit_t(3))
     @vsc.constraint
     def ab(self):
+        self.r.size <= 4
         self.a < self.b
         vsc.solve_order(self.a, self.b)
         vsc.dist(self.c, [vsc.weight(1, 1), vsc.weight(vsc.rng(4, 9), 2)])
@@ -267,7 +273,7 @@ def run_snap(case):
     info = {"restores_after_draws": 0}
 
     def vals(o):
-        return (int(o.a), int(o.b), int(o.c), tuple(int(x) for x in o.l), int(o.e))
+        return (int(o.a), int(o.b), int(o.c), tuple(int(x) for x in o.l), int(o.e), tuple(int(x) for x in o.r))
 
     def txt(extra):
         return SNAP_SRC + "# seed %d\n# ops: %s\n# %s" % (case["seed"], cjson(case["ops"]), extra)
@@ -284,6 +290,15 @@ def run_snap(case):
             flat.scrub(o)
             return True
         return False
+    def call(o, w):
+        if w is None:
+            o.randomize()
+        elif w == 0:
+            with o.randomize_with() as it:
+                it.r.size <= 1
+        else:
+            with o.randomize_with() as it:
+                it.r.size >= 3
     for step, op in enumerate(case["ops"]):
         k = op[0]
         if k == "gnoise":
@@ -298,10 +313,10 @@ def run_snap(case):
             info["fails"] = info.get("fails", 0) + 1
             for rec in following[op[1]]:
                 rec.append("FAIL")
-        elif k == "rand":
+        elif k in ("rand", "randw"):
             o = objs[op[1]]
-            o.randomize()
-            v = vals(o)
+            call(o, op[2] if k == "randw" else None)
+            v = (op[2] if k == "randw" else None, vals(o))
             for rec in following[op[1]]:
                 rec.append(v)
         elif k == "snap":
@@ -323,8 +338,8 @@ def run_snap(case):
                     failing_call(tgt)
                     replay.append("FAIL")
                     continue
-                tgt.randomize()
-                replay.append(vals(tgt))
+                call(tgt, rec[j][0])
+                replay.append((rec[j][0], vals(tgt)))
             if n >= 2:
                 info["restores_after_draws"] += 1
             if replay != rec:
@@ -341,8 +356,8 @@ def run_snap(case):
                     failing_call(other)
                     replay2.append("FAIL")
                     continue
-                other.randomize()
-                replay2.append(vals(other))
+                call(other, rec[j][0])
+                replay2.append((rec[j][0], vals(other)))
             if replay2 != rec:
                 return [{"property": PROPERTY, "kind": "snapshot_not_independent", "detail": "a RandState used to seed one replay cannot seed a second one",
                          "case": case, "text": txt("step %d %s: second replay from the same snapshot got %s, expected %s" % (step, op, replay2[:3], rec[:3]))}], info
